@@ -3,9 +3,11 @@ size-0 cache recompiles: exhaustive operation histories on real loaders,
 monitored against a nondeterministic reference cache model."""
 from __future__ import annotations
 
+import importlib
 import itertools
 import os
 import shutil
+import sys
 import tempfile
 import weakref
 
@@ -24,12 +26,17 @@ RULE = ("(1) every history of length<=L (quick 4; thorough 6 for DictLoader, 5 f
         "cache_size in {0,1,2,-1} (and 3 for length>=5: a shorter history cannot fill 3 slots) x "
         "auto_reload in {on,off} x {DictLoader, FunctionLoader returning "
         "str, FunctionLoader returning (src,None,uptodate), FileSystemLoader on a temp dir with "
-        "os.utime-forced unique mtimes that move UP with every source change, and (auto_reload on, "
+        "os.utime-forced unique mtimes that move UP with every source change, PackageLoader on a "
+        "directory package created in a scratch directory on sys.path (same forced mtimes; "
+        "exhaustive part with auto_reload on only), and (auto_reload on, "
         "histories that write a file) FileSystemLoader with mtimes that move DOWN with every change "
-        "/ re-creation}; (2) per shard 32 (thorough 800) random histories of length 5..9 (6..12) over "
+        "/ re-creation}; one source version of one name per loader is the EMPTY template; any "
+        "exception other than TemplateNotFound out of get_template/select_template is a violation "
+        "on every loader kind; (2) per shard 32 (thorough 800) random histories of length 5..9 (6..12) over "
         "the same alphabet on cache sizes {1,2,3} + alternately 0 / -1 (auto_reload off only for "
         "DictLoader and FileSystemLoader) and additionally FileSystemLoader with "
-        "zigzag mtimes (alternately above/below the initial one). Per lookup the harness observes the names passed to "
+        "zigzag mtimes (alternately above/below the initial one) and PackageLoader with mtimes moving "
+        "up and down. Per lookup the harness observes the names passed to "
         "loader.get_source (instance wrapper), returned template identity, render text / "
         "TemplateNotFound, and after the lookup len(env.cache) and the (loader, name) pairs in "
         "env.cache.keys() (for a bounded cache also their order, documented as most recently used "
@@ -50,6 +57,7 @@ ASSUMPTIONS = [
     "template name and the loader or a weak reference to it -- if that layout changes the content "
     "checks stop (counter cache_keys_unreadable) and the floor on cache_content_checks turns the run "
     "INCONCLUSIVE",
+    "PackageLoader only on a regular directory package (the zip variant supplies no up-to-date check)",
     "where the documentation is silent (same text rewritten; stale entry after a failed reload) either behaviour is accepted",
     "swapping env.loader is only enumerated with auto_reload on (the documentation does not say what a "
     "non-reloading environment does after its loader attribute is replaced)",
@@ -62,6 +70,9 @@ FLOORS = {
                            "reload_of_cached": 750, "notfound": 5000, "evicting_loads": 9500,
                            "exec_dict": 9000, "exec_func": 9000, "exec_funcup": 9000,
                            "exec_fs": 9000, "exec_fsdn": 3000, "exec_fszz": 400, "exec_size3": 900,
+                           "exec_pkg": 6000, "exec_pkgdn": 400, "empty_template_served": 10000,
+                           "lookup_of_deleted_cached": 2400,
+                           "pkg_reload_check_on_deleted_file": 280,
                            "long_histories": 128, "cache_len_checks": 90000,
                            "cache_content_checks": 90000, "cache_order_checks": 60000,
                            "reload_in_full_cache": 270, "fs_reload_mtime_backwards": 300}},
@@ -81,11 +92,15 @@ NAMES = ("a", "b", "c")
 GET_OPS = ("ga", "gb", "gc", "sab", "sba")
 MUT_OPS = ("ma", "mb", "da", "db", "na", "nb", "w")
 OPS = GET_OPS + MUT_OPS
-KINDS = ("dict", "func", "funcup", "fs")
+KINDS = ("dict", "func", "funcup", "fs", "pkg")
 SIZES = (0, 1, 2, -1)
 SIZES_LONG = (0, 1, 2, 3, -1)        # histories of length >= 5 can fill a 3-slot cache
-FS_KINDS = {"fs": "up", "fsdn": "down", "fszz": "zigzag"}
-LONG_KINDS = ("dict", "func", "funcup", "fs", "fsdn", "fszz")
+# loaders reading real files -> direction in which the forced mtimes move;
+# pkg* = PackageLoader on a directory package (importable from a scratch
+# directory put on sys.path), templates below <package>/templates
+FS_KINDS = {"fs": "up", "fsdn": "down", "fszz": "zigzag", "pkg": "up", "pkgdn": "down"}
+PKG_KINDS = ("pkg", "pkgdn")
+LONG_KINDS = ("dict", "func", "funcup", "fs", "fsdn", "fszz", "pkg", "pkgdn")
 MT_BASE = 1_000_000_000
 
 
@@ -105,6 +120,11 @@ def mtime_of(mode, stamp):
 
 
 def text_of(lid, name, ver):
+    """Source of version ``ver`` of ``name`` in loader ``lid``.  Two of them are
+    the EMPTY template (a template that exists and renders ''): the second
+    version of 'b' in the first loader and 'c' in the second one."""
+    if (lid, name, ver) in ((0, "b", 1), (1, "c", 0)):
+        return ""
     return f"{name}{lid}v{ver}"
 
 
@@ -116,44 +136,73 @@ def scratch_dir(prefix):
 
 
 class Kit:
-    """Per-shard scratch: two directories for the FileSystemLoader worlds."""
+    """Per-shard scratch: two directories for the FileSystemLoader worlds and two
+    importable directory packages for the PackageLoader worlds."""
 
     def __init__(self):
         self.root = scratch_dir("vt_c25_")
-        self.dirs = [os.path.join(self.root, "w0"), os.path.join(self.root, "w1")]
-        for d in self.dirs:
+        self.trees = {"fs": [os.path.join(self.root, "w0"), os.path.join(self.root, "w1")]}
+        for d in self.trees["fs"]:
             os.mkdir(d)
-        self.disk = [dict(), dict()]  # what is on disk: name -> (text, stamp) | absent
-        self.mode = "up"
+        self.dirs = self.trees["fs"]
+        # package names must be unique per process and per Kit
+        uniq = os.path.basename(self.root).replace("-", "_")
+        self.pkgroot = os.path.join(self.root, "site")
+        os.mkdir(self.pkgroot)
+        self.pkgs = [f"c25pkg_{uniq}_{lid}" for lid in (0, 1)]
+        self.trees["pkg"] = []
+        for p in self.pkgs:
+            d = os.path.join(self.pkgroot, p)
+            os.makedirs(os.path.join(d, "templates"))
+            with open(os.path.join(d, "__init__.py"), "w", encoding="utf-8") as f:
+                f.write("")
+            self.trees["pkg"].append(os.path.join(d, "templates"))
+        sys.path.insert(0, self.pkgroot)
+        importlib.invalidate_caches()
+        # what is on disk: tree -> [name -> (text, stamp) | absent] per loader id
+        self.disk = {t: [dict(), dict()] for t in self.trees}
+        self.mode = {t: "up" for t in self.trees}
 
-    def put(self, lid, name, val):
-        p = os.path.join(self.dirs[lid], name)
+    @staticmethod
+    def tree_of(kind):
+        return "pkg" if kind in PKG_KINDS else "fs"
+
+    def put(self, tree, lid, name, val):
+        p = os.path.join(self.trees[tree][lid], name)
+        disk = self.disk[tree][lid]
         if val is None:
-            if name in self.disk[lid]:
+            if name in disk:
                 os.remove(p)
-                del self.disk[lid][name]
+                del disk[name]
             return
         with open(p, "w", encoding="utf-8") as f:
             f.write(val[0])
-        t = mtime_of(self.mode, val[1])
+        t = mtime_of(self.mode[tree], val[1])
         os.utime(p, (t, t))
-        self.disk[lid][name] = val
+        disk[name] = val
 
-    def reset(self, mode="up"):
-        self.mode = mode        # stamp 0 has the same mtime in every mode
+    def reset(self, tree, mode="up"):
+        self.mode[tree] = mode        # stamp 0 has the same mtime in every mode
         for lid in (0, 1):
             for n in NAMES:
                 want = (text_of(lid, n, 0), 0)
-                if self.disk[lid].get(n) != want:
-                    self.put(lid, n, want)
+                if self.disk[tree][lid].get(n) != want:
+                    self.put(tree, lid, n, want)
 
     def close(self):
+        try:
+            sys.path.remove(self.pkgroot)
+        except ValueError:
+            pass
+        for p in self.pkgs:
+            sys.modules.pop(p, None)
+        importlib.invalidate_caches()
         shutil.rmtree(self.root, ignore_errors=True)
 
 
 def make_loader(kind, lid, world, kit, calls):
     """world: name -> (text, stamp) (absent = deleted), mutated by the harness."""
-    from jinja2 import DictLoader, FileSystemLoader, FunctionLoader
+    from jinja2 import DictLoader, FileSystemLoader, FunctionLoader, PackageLoader
 
     mapping = None
     if kind == "dict":
@@ -168,6 +217,8 @@ def make_loader(kind, lid, world, kit, calls):
                 return None
             return cur[0], None, (lambda: world.get(name) == cur)
         ld = FunctionLoader(load)
+    elif kind in PKG_KINDS:
+        ld = PackageLoader(kit.pkgs[lid], "templates")
     elif kind in FS_KINDS:
         ld = FileSystemLoader(kit.dirs[lid])
     else:
@@ -187,6 +238,8 @@ def sizeclass(size):
 
 
 def kindtag(kind):
+    if kind in PKG_KINDS:
+        return f"package:mtime={FS_KINDS[kind]}"
     return f"fs:mtime={FS_KINDS[kind]}" if kind in FS_KINDS else kind
 
 
@@ -233,8 +286,9 @@ def run_history(kit, kind, size, ar, hist, stats=None):
     worlds = [{n: (text_of(lid, n, 0), 0) for n in NAMES} for lid in (0, 1)]
     vers = [{n: 0 for n in NAMES} for _ in (0, 1)]
     fs = kind in FS_KINDS
+    tree = kit.tree_of(kind)
     if fs:
-        kit.reset(FS_KINDS[kind])
+        kit.reset(tree, FS_KINDS[kind])
     loaders, mappings = [], []
     for lid in (0, 1):
         ld, mp = make_loader(kind, lid, worlds[lid], kit, calls)
@@ -261,7 +315,7 @@ def run_history(kit, kind, size, ar, hist, stats=None):
             else:
                 mappings[lid][name] = val[0]
         elif fs:
-            kit.put(lid, name, val)
+            kit.put(tree, lid, name, val)
 
     for step, op in enumerate(hist):
         c = op[0]
@@ -327,6 +381,13 @@ def run_history(kit, kind, size, ar, hist, stats=None):
                 stats["evicting_loads"] += 1
             if len(nxt) > 1:
                 stats["ambiguous_model_states"] += 1
+            if res != M.NF and res[2] == "":
+                stats["empty_template_served"] += 1
+            if size != 0 and any(n not in worlds[active] and M._find(s, (active, n)) is not None
+                                 for n in names for s in states):
+                stats["lookup_of_deleted_cached"] += 1
+                if kind in PKG_KINDS and ar:
+                    stats["pkg_reload_check_on_deleted_file"] += 1
             if calls and res != M.NF and size >= 2:
                 k = (active, calls[-1])
                 if any(len(s) == size and M._find(s, k) is not None for s in states):
@@ -406,7 +467,12 @@ def classify(obs, pred, tag, step, op, hist, world, names):
     if all(len(loads) < len(l) for l in pl):
         kind = "served-without-required-load"
     elif all(len(loads) > len(l) for l in pl):
-        kind = "load-where-cached-copy-required"
+        if any(l and loads[:len(l)] == l for l in pl):
+            # the lookup went on to further names although the model's lookup ends
+            # with a template found under an earlier one
+            kind = "select-skipped-a-template-the-loader-has"
+        else:
+            kind = "load-where-cached-copy-required"
     elif loads not in pl:
         kind = "loader-call-sequence"
     else:
@@ -461,7 +527,8 @@ def histories(maxlen):
 STAT_KEYS = ("lookups", "loader_calls", "notfound", "served_from_cache", "reload_of_cached",
              "evicting_loads", "ambiguous_model_states", "cache_unobservable", "cache_len_checks",
              "cache_keys_unreadable", "cache_content_checks", "cache_order_checks",
-             "reload_in_full_cache", "fs_reload_mtime_backwards")
+             "reload_in_full_cache", "fs_reload_mtime_backwards", "empty_template_served",
+             "lookup_of_deleted_cached", "pkg_reload_check_on_deleted_file")
 
 
 def random_history(rng, length):
@@ -487,16 +554,18 @@ def exec_all(ctx, kit, stats, hist, kinds, sizes, part, off_kinds=None):
     changes = any(o[0] in "mn" for o in hist)
     n = 0
     for kind in kinds:
-        if kind in FS_KINDS and kind != "fs" and not changes:
+        if kind in FS_KINDS and FS_KINDS[kind] != "up" and not changes:
             continue        # no source is (re)written: the mtime direction cannot matter
         for size in sizes:
             for ar in (True, False):
                 if has_swap and not ar:
                     continue
-                if not ar and kind in FS_KINDS and kind != "fs":
-                    continue    # nothing is ever reloaded: identical to the "fs" execution
+                if not ar and kind in FS_KINDS and FS_KINDS[kind] != "up":
+                    continue    # nothing is ever reloaded: identical to the "up" execution
                 if not ar and off_kinds is not None and kind not in off_kinds:
                     continue
+                if not ar and kind in PKG_KINDS and part == "exhaustive":
+                    continue    # budget: auto_reload off on a package only in the long histories
                 bad = run_history(kit, kind, size, ar, hist, stats)
                 n += 1
                 ctx.ev()
@@ -520,7 +589,7 @@ def part_long(ctx, kit, stats, quick):
         hist = random_history(rng, rng.randint(lo, hi))
         # bounded sizes always; 0 and unbounded alternately (the exhaustive part has them)
         exec_all(ctx, kit, stats, hist, LONG_KINDS, (1, 2, 3, (0, -1)[i % 2]), "long",
-                 off_kinds=("dict", "fs"))
+                 off_kinds=("dict", "fs", "pkg"))
         ctx.count("long_histories")
         ctx.dist(hist)
         if i < 2 and ctx.shard == 0:
@@ -536,7 +605,7 @@ def run(ctx):
     stats = {k: 0 for k in STAT_KEYS}
     try:
         part_long(ctx, kit, stats, quick)
-        xk = KINDS + ("fsdn",)
+        xk = KINDS + ("fsdn",)        # pkgdn only in the random long histories
         if quick:
             plan = [(xk, 1, 4)]
         else:
